@@ -43,7 +43,7 @@ func init() {
 			urlLens := []int64{4, 5, 6, 8}
 			srcs := [][2]int64{{-1, 0}, {2, 1}, {4, 0}, {4, 2}}
 			if tier == "thorough" {
-				urlLens = []int64{0, 4, 5, 6, 7, 9, 11}
+				urlLens = []int64{0, 4, 5, 6, 7, 8, 10}
 				srcs = [][2]int64{{-1, 0}, {1, 1}, {2, 2}, {4, 0}, {5, 1}, {3, 2}}
 			}
 			urlLens2 := []int64{5, 6}
